@@ -85,10 +85,6 @@ def source_items(relpath):
 def is_ghost_item(it):
     if it.mode in ("spec", "proof"): return True
     if it.kind in ("other", "use"): return True
-    # external_body stubs written by hand in a code section count as ghost/assumed text
-    for k in range(it.attrs_end):
-        if it.toks[k].text in ("external_body", "external_fn_specification", "external_type_specification", "external"):
-            return True
     return False
 
 def find_item(items, key, relpath):
@@ -128,6 +124,8 @@ def _weave_real(b, unit, tmpl_item, src_item, label, rules, degrade=False):
     chk = [t.text for t in out if t.ann is None]
     if chk != [t.text for t in cur]:
         b.selfcheck = False
+    if any(t.ann == "attr" and t.text == "external_body" for t in tmpl_item.toks):
+        b.stubs.append({"fn": label, "status": "assumed: real body present but NOT verified (external_body in its home unit)"})
     ncl = sum(1 for (p, k, r) in W.runs(tmpl_item.toks) if k in ("clause", "lclause"))
     b.clauses += ncl
     return out, ncl
@@ -138,7 +136,7 @@ def build(unit, strict=True, mutate=None, pid=None, degrade=(), extras=()):
     b = Built(); b.template = t
     chunks = ["// GENERATED by /verif/vf from /repo working tree + units/%s.rs -- do not edit\nuse vstd::prelude::*;\nverus! {\nglobal size_of usize == 8;\n" % unit + STD_PRELUDE]
     b.ranges.append({"start": 1, "end": 5 + STD_PRELUDE.count("\n"), "label": "<header>", "real": False})
-    rules = ["vis", "static", "attr"] + t.meta["rewrite"]
+    rules = ["vis", "static", "attr", "constfold"] + t.meta["rewrite"]
     for s in t.sections:
         if s.kind == "spec":
             _emit(b, chunks, "\n".join(s.lines) + "\n", "<spec:%s@%d>" % (unit, s.lineno), False)
@@ -155,7 +153,7 @@ def build(unit, strict=True, mutate=None, pid=None, degrade=(), extras=()):
             _emit(b, chunks, "// ---- spec of unit %s (its lemmas are proved there; here they are external_body) ----\n" % s.arg[0] + imported_spec(other, b) + "\n", "<spec:%s>" % s.arg[0], False)
         elif s.kind in ("stub", "stub-assumed"):
             txt, info = make_stub(s.arg[0], s.arg[1], strict, pid)
-            info["status"] = "proved-in:" + s.arg[0] if s.kind == "stub" else "assumed"
+            info["status"] = ("proved-in:" + s.arg[0]) if (s.kind == "stub" and not info.get("home_external")) else "assumed (contract stated in unit %s, body not verified there)" % s.arg[0]
             b.stubs.append(info)
             _emit(b, chunks, txt + "\n", "<stub:%s %s>" % (s.arg[0], s.arg[1]), False)
         elif s.kind == "code":
@@ -171,7 +169,7 @@ def build(unit, strict=True, mutate=None, pid=None, degrade=(), extras=()):
                     _emit(b, chunks, render(it.toks) + "\n", "<ghost:%s>" % it.name, False)
                     continue
                 cands = find_item(src, it.key, rel)
-                if it.kind == "impl":
+                if it.kind in ("impl", "trait"):
                     bo, bc, members = impl_members(it)
                     W.mark_attrs(it.toks)
                     head = [x for x in RW.apply(cands[0].toks[:first_brace_depth0(cands[0].toks, cands[0].kw_idx) + 1], rules, b.rewrites)]
@@ -276,13 +274,16 @@ def make_stub(unit, fnpath, strict=True, pid=None):
         ty, name = fnpath.rsplit("::", 1)
     for s, it in t.code_items():
         if ty is None and it.kind == "fn" and it.name == name and not is_ghost_item(it):
-            return _stub_text(it), {"fn": fnpath, "unit": unit}
+            return _stub_text(it), {"fn": fnpath, "unit": unit, "home_external": _has_ext(it)}
         if ty is not None and it.kind == "impl" and it.name.split(" for ")[-1].strip() == ty:
             for m in impl_members(it)[2]:
                 if m.kind == "fn" and m.name == name:
                     head = render(it.toks[it.kw_idx:first_brace_depth0(it.toks, it.kw_idx) + 1])
-                    return head + "\n" + _stub_text(m) + "\n}", {"fn": fnpath, "unit": unit}
+                    return head + "\n" + _stub_text(m) + "\n}", {"fn": fnpath, "unit": unit, "home_external": _has_ext(m)}
     raise LostAnchor("lost-anchor: stub %s::%s not found in template" % (unit, fnpath))
+
+def _has_ext(it):
+    return any(it.toks[k].text == "external_body" for k in range(it.attrs_end))
 
 def _stub_text(it):
     toks = it.toks
